@@ -5,6 +5,7 @@ from meta import COMMON_NOTE
 import brv
 from engine import Spec, Stream
 from monitors import merkle as mon
+from monitors import blkdl as mon_dl
 
 
 def gen(seed, tier, out):
@@ -16,13 +17,22 @@ def gen(seed, tier, out):
 EXPECTED_ORDER = ["ProcessTx", "AddMerkleProof", "AddHash", "wasCancelled", "FinalizeMerkleProofs", "Verify", "wasCancelled",
                   "ProcessCoinbaseTx", "ConfirmTx", "AppendBlockTxIDs"]
 
+def gen_dl(seed, tier, out):
+    n = 200 if tier == "quick" else 4000
+    with open(out, "w") as f:
+        subprocess.run([str(brv.BIN / "blkdl"), "gen", str(seed + 17), str(n), tier], stdout=f, check=True)
+
+
 SPEC = Spec(
     prop="C04",
     title="Block confirmations are issued only for fully verified blocks, with valid proofs",
-    go_bins=["merkle"],
-    lean_targets=["BRV.Props.C04", "drv_merkle"],
+    go_bins=["merkle", "blkdl"],
+    lean_targets=["BRV.Props.C04", "drv_merkle", "drv_blkdl"],
     props_files=[brv.LEAN / "BRV/Props/C04.lean"],
-    streams=[Stream("merkle", "merkle", "drv_merkle", gen, monitor=mon.monitor, nontrivial=mon.nontrivial)],
+    streams=[Stream("merkle", "merkle", "drv_merkle", gen, monitor=mon.monitor, nontrivial=mon.nontrivial),
+             # the downloader with its Run loop, Cancel and Stop (C16's blkdl stream, a smaller sample): a cancel that
+             # reaches a started download must still keep it from confirming ("no confirmation after cancellation")
+             Stream("blkdl", "blkdl", "drv_blkdl", gen_dl, monitor=mon_dl.monitor, nontrivial=mon_dl.nontrivial, timeout=900)],
     rule="real NewBlockDownloader+HandleBlock fed from a channel with recording TxProcessor/BlockTxManager spies: every width 0..33 "
          "(thorough ..130) with every leaf's proof, every relevant subset up to width 6 (thorough 9), every single corruption at every "
          "position for widths 1..9 (thorough ..20): dropped/added/reordered/altered tx with and without adjusted count, count +-1, stream "
